@@ -1,22 +1,928 @@
-(* TextReaderNP.v — panics of the text reader model: the witnesses that refute
-   "no call ever panics" for the code that exists (D02, D03). *)
-From Coq Require Import String List NArith ZArith Bool.
-From IonV Require Import Base.Wire Data.Ion Bin.BinReader Text.Tokenizer Text.Skipper Text.TextReader Text.TextNum.
+(* TextReaderNP.v — no call of the text reader model ever panics, for every input
+   and every navigation program: the reader keeps an invariant ([WF]) under which
+   the panic sites of tokenizer.go / skipper.go / textreader.go / textutils.go
+   (ReadValue and skipValue on an unexpected token, scanForNumericType on a
+   non-digit, the index expressions of parseInt, containerTypeToCtx, the
+   "unexpected state / context" panics of Next) are unreachable. *)
+From Coq Require Import String List NArith ZArith Bool Lia.
+From IonV Require Import Base.Wire Bin.Bits Data.Ion Num.Float Bin.BitStream Bin.BinReader
+  Text.Tokenizer Text.Skipper Text.TextReader Text.TokenizerNP Text.TextNum.
 Import ListNotations.
 Open Scope N_scope.
 
-(* IntValue on null.int *)
-Lemma no_panic_refuted :
-  ~ (forall inp ioerr p,
-       ~ In (s "panic") (snd (x_run parse_decimal_text parse_ts_text (fun A => Panic) (x_init inp ioerr) p []))).
+(* ---- the invariant ------------------------------------------------------------------------------------ *)
+(* an unfinished token is one skipValue accepts *)
+Definition U (t : tstate) : Prop := t_unfinished t = true -> skb (t_token t) = true.
+Definition is_container (ty : N) : bool := (ty =? TList) || (ty =? TSexp) || (ty =? TStruct).
+
+Record wf (x : xstate) : Prop := mk_wf {
+  wf_err : x_err x = false;
+  wf_state : x_state x = trsBeforeFieldName \/ x_state x = trsBeforeTypeAnnotations \/
+             x_state x = trsBeforeContainer \/ x_state x = trsAfterValue;
+  wf_bc : x_state x = trsBeforeContainer -> t_unfinished (x_tok x) = true /\ is_container (x_type x) = true;
+  wf_av : x_state x = trsAfterValue -> state_after_value x = trsAfterValue;
+  wf_unf : t_unfinished (x_tok x) = true ->
+           skb (t_token (x_tok x)) = true \/
+           (t_token (x_tok x) = tokenEOF /\ x_eof x = true /\ x_ctx x = [])
+}.
+(* exploded, or well-formed *)
+Definition WF (x : xstate) : Prop := (x_state x = trsDone /\ x_err x = true) \/ wf x.
+(* inside Next, before a token is read *)
+Definition L (x : xstate) : Prop :=
+  x_err x = false /\
+  (x_state x = trsBeforeFieldName \/ x_state x = trsBeforeTypeAnnotations \/ x_state x = trsAfterValue) /\
+  (x_state x = trsAfterValue -> state_after_value x = trsAfterValue) /\
+  t_unfinished (x_tok x) = false.
+
+Lemma L_wf x : L x -> wf x.
 Proof.
-  intros H. apply (H (s "null.int") false [ONext; OInt]).
-  vm_compute. right. left. reflexivity.
+  intros [E [S [A Uf]]]. constructor; auto.
+  - destruct S as [S|[S|S]]; auto.
+  - intros B. rewrite B in S. destruct S as [S|[S|S]]; discriminate.
+  - intros T. congruence.
+Qed.
+Lemma explode_WF x : WF (x_explode x).
+Proof. left; split; reflexivity. Qed.
+Lemma sav_cases x : state_after_value x = trsBeforeTypeAnnotations \/ state_after_value x = trsAfterValue.
+Proof. unfold state_after_value. destruct (x_ctx x) as [|[| |] r]; auto. Qed.
+
+Lemma tokpost_U t : tokpost t -> (t_token t =? tokenEOF) = false -> U t.
+Proof.
+  intros [H _] E Hu. rewrite H in Hu. unfold unf_of in Hu. rewrite E in Hu. rewrite orb_false_r in Hu. exact Hu.
+Qed.
+Lemma same_U t t' : same t t' -> U t -> U t'.
+Proof. intros [H1 [H2 _]] Hu. unfold U. rewrite H1, H2. exact Hu. Qed.
+
+(* ---- Hoare-style stepping through the reader monad ------------------------------------------------------ *)
+Definition hoare {A} (r : xstate * res A) (Q : A -> xstate -> Prop) : Prop :=
+  match r with
+  | (x', Ok a) => Q a x'
+  | (_, Panic) => False
+  | _ => True
+  end.
+Lemma hoare_weaken {A} (r : xstate * res A) (Q Q' : A -> xstate -> Prop) :
+  hoare r Q -> (forall a x', Q a x' -> Q' a x') -> hoare r Q'.
+Proof. destruct r as [x' [a| | |]]; cbn; auto. Qed.
+
+Lemma hb {A B} (m : R A) (f : A -> R B) x (P : A -> xstate -> Prop) (Q : B -> xstate -> Prop) :
+  hoare (m x) P -> (forall a x1, P a x1 -> hoare (f a x1) Q) -> hoare (rbind m f x) Q.
+Proof.
+  unfold rbind. destruct (m x) as [x1 [a| | |]]; cbn; auto.
+Qed.
+Lemma hb_lift {A B} (m : M A) (f : A -> R B) x (P : A -> tstate -> Prop) (Q : B -> xstate -> Prop) :
+  match m (x_tok x) with Ok (a, t') => P a t' | Panic => False | _ => True end ->
+  (forall a t', P a t' -> hoare (f a (xs_tok x t')) Q) ->
+  hoare (rbind (lift m) f x) Q.
+Proof.
+  intros Hm Hf. unfold rbind, lift. destruct (m (x_tok x)) as [[a t']| | |]; cbn; auto.
+Qed.
+Lemma hb_frame {A B} (m : M A) (f : A -> R B) x (Q : B -> xstate -> Prop) :
+  tframe m ->
+  (forall a t', same (x_tok x) t' -> hoare (f a (xs_tok x t')) Q) ->
+  hoare (rbind (lift m) f x) Q.
+Proof.
+  intros Hm Hf. apply hb_lift with (P := fun _ t' => same (x_tok x) t'); [|exact Hf].
+  specialize (Hm (x_tok x)). destruct (m (x_tok x)) as [[a t']| | |]; auto.
+Qed.
+Lemma hb_fin {A B} (m : M A) (f : A -> R B) x (Q : B -> xstate -> Prop) :
+  tfin m (x_tok x) ->
+  (forall a t', t_token t' = t_token (x_tok x) -> t_unfinished t' = false -> hoare (f a (xs_tok x t')) Q) ->
+  hoare (rbind (lift m) f x) Q.
+Proof.
+  intros Hm Hf. apply hb_lift with (P := fun _ t' => t_token t' = t_token (x_tok x) /\ t_unfinished t' = false).
+  - unfold tfin in Hm. destruct (m (x_tok x)) as [[a t']| | |]; auto. destruct Hm as [H1 [H2 _]]; auto.
+  - intros a t' [H1 H2]; auto.
+Qed.
+Lemma hb_next {B} (f : unit -> R B) x (Q : B -> xstate -> Prop) :
+  U (x_tok x) ->
+  (forall t', tokpost t' -> hoare (f tt (xs_tok x t')) Q) ->
+  hoare (rbind (lift t_next) f x) Q.
+Proof.
+  intros Hu Hf. apply hb_lift with (P := fun _ t' => tokpost t').
+  - apply next_spec. exact Hu.
+  - intros [] t' H; auto.
+Qed.
+Lemma hb_res {A B} (r : res A) (f : A -> R B) x (Q : B -> xstate -> Prop) :
+  r <> Panic -> (forall a, r = Ok a -> hoare (f a x) Q) -> hoare (rbind (of_res r) f x) Q.
+Proof.
+  intros Hn Hf. unfold rbind, of_res. destruct r as [a| | |]; cbn; auto.
 Qed.
 
-(* a typed null inside the imports of a local symbol table, met by a plain traversal *)
-Definition lst_witness : list N :=
-  s "$ion_symbol_table::{imports:[{name:""x"",version:null.int,max_id:2}]}".
-Lemma no_panic_refuted_lst : exists inp,
-  In (s "panic") (x_traverse parse_decimal_text parse_ts_text (fun A => Panic) inp false).
-Proof. exists lst_witness. vm_compute. left. reflexivity. Qed.
+(* ---- StepIn / StepOut ------------------------------------------------------------------------------------------ *)
+Lemma step_in_spec x : WF x ->
+  match x_step_in x with
+  | (x', Ok true) => L x' /\ exists c, x_ctx x' = c :: x_ctx x
+  | (x', Ok false) => x' = x
+  | (_, Panic) => False
+  | _ => True
+  end.
+Proof.
+  intros [[D E]|W]; unfold x_step_in.
+  - rewrite E. reflexivity.
+  - rewrite (wf_err x W).
+    destruct (x_state x =? trsBeforeContainer) eqn:S; cbn [negb]; [|reflexivity].
+    apply N.eqb_eq in S. destruct (wf_bc x W S) as [_ C]. unfold is_container in C.
+    destruct (x_type x =? TList); [|destruct (x_type x =? TSexp); [|destruct (x_type x =? TStruct); [|discriminate]]];
+      (split; [|eexists; reflexivity]); repeat split; cbn; auto using wf_err; try discriminate.
+Qed.
+
+Lemma step_out_spec x : WF x ->
+  match x_step_out x with
+  | (x', Ok true) => L x' /\ x_state x <> trsDone /\ exists c, x_ctx x = c :: x_ctx x'
+  | (x', Ok false) => WF x' /\ (x_state x' <> trsDone -> x' = x)
+  | (_, Panic) => False
+  | _ => True
+  end.
+Proof.
+  intros HW. unfold x_step_out. destruct HW as [[D E]|W].
+  - rewrite E. split; [left; auto|reflexivity].
+  - rewrite (wf_err x W). destruct (x_ctx x) as [|c rest] eqn:C.
+    + split; [right; exact W|reflexivity].
+    + assert (Hu : U (x_tok x)).
+      { intros T. destruct (wf_unf x W T) as [S|[_ [_ K]]]; [exact S|congruence]. }
+      pose proof (finish_value_fin (x_tok x) Hu) as Hf. unfold tfin in Hf. unfold lift at 1.
+      destruct (t_finish_value (x_tok x)) as [[b t1]| | |]; try exact I; try contradiction.
+      * destruct Hf as [F1 [F2 _]].
+        assert (Hs : match (if x_eof (xs_tok x t1) then (xs_tok x t1, Ok tt) else lift (t_skip_container_contents c) (xs_tok x t1)) with
+                     | (x2, Ok _) => x_err x2 = false /\ t_unfinished (x_tok x2) = false /\ x_ctx x2 = c :: rest
+                     | (_, Panic) => False
+                     | _ => True end).
+        { destruct (x_eof (xs_tok x t1)).
+          - cbn. repeat split; auto using wf_err.
+          - unfold lift. cbn [x_tok xs_tok]. pose proof (tframe_skip_container_contents c t1) as Hk.
+            destruct (t_skip_container_contents c t1) as [[u t2]| | |]; try exact I; try contradiction.
+            destruct Hk as [_ [K2 _]]. cbn. repeat split; auto using wf_err. congruence. }
+        destruct (if x_eof (xs_tok x t1) then (xs_tok x t1, Ok tt) else lift (t_skip_container_contents c) (xs_tok x t1))
+          as [x2 [u| | |]]; try exact I; try contradiction.
+        -- destruct Hs as [S1 [S2 S3]]. split; [|split; [destruct (wf_state x W) as [K|[K|[K|K]]]; rewrite K; discriminate|exists c; reflexivity]].
+           unfold L, state_after_value; cbn. destruct rest as [|[| |] r]; repeat split; auto; discriminate.
+        -- split; [apply explode_WF|intros K; exfalso; apply K; reflexivity].
+      * split; [apply explode_WF|intros K; exfalso; apply K; reflexivity].
+Qed.
+
+(* ---- the token handlers ---------------------------------------------------------------------------------------------- *)
+(* only the tokenizer part of the state differs *)
+Definition tokonly (x x' : xstate) : Prop := exists t', x' = xs_tok x t'.
+Lemma tokonly_refl x : tokonly x x.
+Proof. exists (x_tok x). destruct x; reflexivity. Qed.
+
+Lemma set_value_spec ty v x : x_err x = false -> U (x_tok x) ->
+  hoare (set_value ty v x) (fun _ x' => wf x' /\ x_ctx x' = x_ctx x).
+Proof.
+  intros E Hu. unfold set_value, rmod, hoare. split; [|reflexivity].
+  constructor; cbn; auto.
+  - destruct (sav_cases x) as [S|S]; rewrite S; auto.
+  - intros B. destruct (sav_cases x) as [S|S]; rewrite S in B; discriminate.
+Qed.
+
+Lemma new_symbol_token_np l t : new_symbol_token l t <> Panic.
+Proof.
+  unfold new_symbol_token. destruct (symbol_identifier t); [|discriminate].
+  destruct (z <? 0)%Z; [discriminate|]. destruct (tok_by_sid l (Z.to_N z)); discriminate.
+Qed.
+
+Lemma rvb_symbol : rvb tokenSymbol = true. Proof. reflexivity. Qed.
+
+Lemma read_null_type_spec x : U (x_tok x) ->
+  hoare (read_null_type x) (fun _ x' => tokonly x x' /\ t_unfinished (x_tok x') = false).
+Proof.
+  intros Hu. unfold read_null_type.
+  apply hb_next; [exact Hu|]. intros t1 Ht1. unfold rbind at 1, rget. cbn [x_tok xs_tok].
+  destruct (negb (t_token t1 =? tokenSymbol)); [exact I|].
+  apply hb_fin; [apply read_value_fin, rvb_symbol|]. intros v t2 _ F2. cbn [xs_tok x_tok] in *.
+  destruct (null_type_of v); [|exact I]. cbn. split; [eexists; reflexivity|exact F2].
+Qed.
+
+Lemma on_null_spec ws x : U (x_tok x) ->
+  hoare (on_null ws x) (fun _ x' => tokonly x x' /\ U (x_tok x')).
+Proof.
+  intros Hu. unfold on_null. destruct ws; cbn [negb].
+  - cbn. split; [apply tokonly_refl|exact Hu].
+  - apply hb_frame; [apply tframe_skip_dot|]. intros ok t1 S1.
+    destruct ok.
+    + eapply hoare_weaken; [apply read_null_type_spec; cbn; eapply same_U; eassumption|].
+      intros ty x' H; cbn beta in H; destruct H as [[t' ->] F]. split; [eexists; reflexivity|]. intros T. cbn in *. congruence.
+    + cbn. split; [eexists; reflexivity|]. cbn. eapply same_U; eassumption.
+Qed.
+
+Lemma on_symbol_spec v ws x : x_err x = false -> U (x_tok x) ->
+  hoare (on_symbol v ws x) (fun _ x' => wf x' /\ x_ctx x' = x_ctx x).
+Proof.
+  intros E Hu. unfold on_symbol.
+  destruct (list_eqb v (s "null")).
+  { eapply hb; [apply on_null_spec; exact Hu|]. intros ty x1 H; cbn beta in H; destruct H as [[t1 ->] U1].
+    eapply hoare_weaken; [apply set_value_spec; [exact E|exact U1]|]. cbn. auto. }
+  destruct (list_eqb v (s "true")); [apply set_value_spec; assumption|].
+  destruct (list_eqb v (s "false")); [apply set_value_spec; assumption|].
+  destruct (list_eqb v (s "nan")); [apply set_value_spec; assumption|].
+  unfold rbind at 1, rget.
+  apply hb_res; [apply new_symbol_token_np|]. intros k _. apply set_value_spec; assumption.
+Qed.
+
+(* parseInt cannot panic on what readRadix yields, nor in radix 10 *)
+Lemma parse_int_np v radix : radix = 10 \/ radix_shape v -> parse_int v radix <> Panic.
+Proof.
+  intros H. unfold parse_int.
+  destruct (radix =? 10) eqn:R.
+  - cbn. destruct (go_signed_val radix v); discriminate.
+  - destruct H as [H|H]; [subst; discriminate|].
+    destruct v as [|a [|b r]]; cbn in H; try contradiction.
+    destruct (a =? 45) eqn:A.
+    + destruct r as [|c r]; [congruence|]. cbn [bind]. destruct (go_signed_val radix (45 :: r)); discriminate.
+    + cbn [bind]. destruct (go_signed_val radix r); discriminate.
+Qed.
+
+Section Handlers.
+Variable pd : list N -> res dec.
+Variable pt : list N -> res (list N).
+Hypothesis pd_np : forall l, pd l <> Panic.
+Hypothesis pt_np : forall l, pt l <> Panic.
+
+Lemma on_number_spec tok x :
+  x_err x = false -> tokpost (x_tok x) -> t_token (x_tok x) = tok ->
+  (tok =? tokenBinary) || (tok =? tokenHex) || (tok =? tokenNumber) || (tok =? tokenFloatInf)
+    || (tok =? tokenFloatMinusInf) <> false ->
+  hoare (on_number pd tok x) (fun _ x' => wf x' /\ x_ctx x' = x_ctx x).
+Proof.
+  intros E Hp Ht Hk. unfold on_number.
+  assert (Hrad : forall radix, is_radix tok = true -> rvb tok = true ->
+            hoare ((rdo v <- lift (t_read_value tok); rdo i <- of_res (parse_int v radix); set_value TInt (XInt i)) x)
+                  (fun _ x' => wf x' /\ x_ctx x' = x_ctx x)).
+  { intros radix R V.
+    apply hb_lift with (P := fun v t' => t_unfinished t' = false /\ radix_shape v).
+    - pose proof (read_value_fin tok (x_tok x) V) as H1. unfold tfin in H1.
+      pose proof (read_value_radix tok (x_tok x) R) as H2. rewrite <- Ht in R. specialize (H2 (proj2 Hp R)).
+      destruct (t_read_value tok (x_tok x)) as [[v t']| | |]; auto. destruct H1 as [_ [H1 _]]. auto.
+    - intros v t' [F S]. apply hb_res; [apply parse_int_np; right; exact S|]. intros i _.
+      eapply hoare_weaken; [apply set_value_spec; [exact E|intros T; cbn in T; congruence]|]. cbn. auto. }
+  destruct (tok =? tokenBinary) eqn:KB; [apply N.eqb_eq in KB; rewrite KB in *; apply Hrad; reflexivity|].
+  destruct (tok =? tokenHex) eqn:KH; [apply N.eqb_eq in KH; rewrite KH in *; apply Hrad; reflexivity|].
+  assert (Hu : forall k, tok = k -> (k =? tokenEOF) = false -> U (x_tok x)).
+  { intros k K KE. apply tokpost_U; [exact Hp|rewrite Ht, K; exact KE]. }
+  destruct (tok =? tokenNumber) eqn:KN.
+  { apply N.eqb_eq in KN. specialize (Hu _ KN eq_refl).
+    apply hb_frame; [apply tframe_read_number|]. intros [v kd] t1 S1.
+    assert (U1 : U (x_tok (xs_tok x t1))) by (cbn; eapply same_U; eassumption).
+    destruct kd.
+    - apply hb_res; [apply parse_int_np; left; reflexivity|]. intros i _.
+      eapply hoare_weaken; [apply set_value_spec; [exact E|exact U1]|]. cbn. auto.
+    - destruct (float_syntax_ok v); [|exact I].
+      eapply hoare_weaken; [apply set_value_spec; [exact E|exact U1]|]. cbn. auto.
+    - apply hb_res; [apply pd_np|]. intros d _.
+      eapply hoare_weaken; [apply set_value_spec; [exact E|exact U1]|]. cbn. auto. }
+  destruct (tok =? tokenFloatInf) eqn:KI; [apply N.eqb_eq in KI; apply set_value_spec; [assumption|apply (Hu _ KI eq_refl)]|].
+  destruct (tok =? tokenFloatMinusInf) eqn:KM; [apply N.eqb_eq in KM; apply set_value_spec; [assumption|apply (Hu _ KM eq_refl)]|].
+  exfalso. apply Hk. reflexivity.
+Qed.
+
+Lemma on_timestamp_spec x :
+  x_err x = false ->
+  hoare (on_timestamp pt x) (fun _ x' => wf x' /\ x_ctx x' = x_ctx x).
+Proof.
+  intros E. unfold on_timestamp.
+  apply hb_fin; [apply read_value_fin; reflexivity|]. intros v t1 _ F.
+  apply hb_res; [apply pt_np|]. intros ts _.
+  eapply hoare_weaken; [apply set_value_spec; [exact E|intros T; cbn in T; congruence]|]. cbn. auto.
+Qed.
+
+Lemma on_lob_spec x :
+  x_err x = false -> U (x_tok x) ->
+  hoare (on_lob x) (fun _ x' => wf x' /\ x_ctx x' = x_ctx x).
+Proof.
+  intros E Hu. unfold on_lob.
+  apply hb_frame; [apply tframe_skip_lob_ws|]. intros c t1 S1.
+  assert (Hsv : forall (v : xvalue) ty t', t_unfinished t' = false ->
+            hoare (set_value ty v (xs_tok (xs_tok x t1) t')) (fun _ x' => wf x' /\ x_ctx x' = x_ctx x)).
+  { intros v ty t' F. eapply hoare_weaken; [apply set_value_spec; [exact E|intros T; cbn in T; congruence]|]. cbn. auto. }
+  destruct (c =? c_dquote)%Z.
+  { apply hb_fin; [apply read_short_clob_fin|]. intros v t2 _ F. apply Hsv; exact F. }
+  destruct (c =? c_quote)%Z.
+  { apply hb_frame; [apply tframe_is_triple_quote|]. intros ok t2 S2.
+    destruct (negb ok); [exact I|].
+    apply hb_fin; [apply read_long_clob_fin|]. intros v t3 _ F.
+    eapply hoare_weaken; [apply set_value_spec; [exact E|intros T; cbn in T; congruence]|]. cbn. auto. }
+  apply hb_frame; [apply tframe_unread|]. intros u t2 S2.
+  apply hb_fin; [apply read_blob_fin|]. intros b64 t3 _ F.
+  destruct (b64_decode b64); [|exact I].
+  eapply hoare_weaken; [apply set_value_spec; [exact E|intros T; cbn in T; congruence]|]. cbn. auto.
+Qed.
+
+Definition hpost (x0 : xstate) (b : bool) (x' : xstate) : Prop :=
+  (if b then wf x' else L x') /\ x_ctx x' = x_ctx x0.
+
+Lemma tokpost_unf t k : tokpost t -> t_token t = k -> t_unfinished t = unf_of k.
+Proof. intros [H _] <-. exact H. Qed.
+
+(* a value-less Ok true answer (end of container / of input): only eof changes *)
+Lemma eof_wf x : x_err x = false ->
+  (x_state x = trsBeforeFieldName \/ x_state x = trsBeforeTypeAnnotations \/ x_state x = trsAfterValue) ->
+  (x_state x = trsAfterValue -> state_after_value x = trsAfterValue) ->
+  (t_unfinished (x_tok x) = true -> t_token (x_tok x) = tokenEOF /\ x_ctx x = []) ->
+  wf (xs_eof x true).
+Proof.
+  intros E S A Hu. constructor; cbn; auto.
+  - destruct S as [S|[S|S]]; auto.
+  - intros B. rewrite B in S. destruct S as [S|[S|S]]; discriminate.
+  - intros T. right. destruct (Hu T). auto.
+Qed.
+
+Lemma next_after_value_spec x :
+  x_err x = false -> x_state x = trsAfterValue -> state_after_value x = trsAfterValue -> tokpost (x_tok x) ->
+  hoare (next_after_value x) (hpost x).
+Proof.
+  intros E S A Hp. unfold next_after_value. unfold rbind at 1, rget.
+  assert (Hc : exists c r, x_ctx x = c :: r /\ (c = CStruct \/ c = CList)).
+  { unfold state_after_value in A. destruct (x_ctx x) as [|[| |] r]; try discriminate; eauto. }
+  destruct Hc as [c [r [C Hc]]].
+  assert (Heof : forall k, t_token (x_tok x) = k -> unf_of k = false -> wf (xs_eof x true)).
+  { intros k K F. apply eof_wf; auto. intros T. rewrite (tokpost_unf _ _ Hp K), F in T. discriminate. }
+  destruct (t_token (x_tok x) =? tokenComma) eqn:K1.
+  { apply N.eqb_eq in K1. pose proof (tokpost_unf _ _ Hp K1) as F. rewrite C.
+    destruct Hc as [->| ->]; cbn; (split; [|reflexivity]); repeat split; cbn; auto; discriminate. }
+  destruct (t_token (x_tok x) =? tokenCloseBrace) eqn:K2.
+  { apply N.eqb_eq in K2. unfold x_in_struct. rewrite C. destruct c; try exact I.
+    cbn. split; [apply (Heof _ K2); reflexivity|reflexivity]. }
+  destruct (t_token (x_tok x) =? tokenCloseBracket) eqn:K3; [|exact I].
+  apply N.eqb_eq in K3. rewrite C. destruct c; try exact I.
+  cbn. split; [apply (Heof _ K3); reflexivity|reflexivity].
+Qed.
+
+Lemma rvb_field k :
+  (k =? tokenSymbol) || (k =? tokenSymbolQuoted) || (k =? tokenString) || (k =? tokenLongString) = true -> rvb k = true.
+Proof.
+  intros H. repeat (apply orb_true_iff in H; destruct H as [H|H]); apply N.eqb_eq in H; subst; reflexivity.
+Qed.
+
+Lemma next_before_field_name_spec x :
+  x_err x = false -> x_state x = trsBeforeFieldName -> tokpost (x_tok x) ->
+  hoare (next_before_field_name x) (hpost x).
+Proof.
+  intros E S Hp. unfold next_before_field_name. unfold rbind at 1, rget.
+  destruct (t_token (x_tok x) =? tokenCloseBrace) eqn:K1.
+  { apply N.eqb_eq in K1. cbn. split; [|reflexivity]. apply eof_wf; auto.
+    - rewrite S; discriminate.
+    - intros T. rewrite (tokpost_unf _ _ Hp K1) in T. discriminate. }
+  match goal with |- hoare ((if ?b then _ else _) x) _ => destruct b eqn:K2 end; [|exact I].
+  apply hb_fin; [apply read_value_fin, rvb_field, K2|]. intros v t1 _ F1.
+  match goal with |- hoare ((if ?b then _ else _) _) _ => destruct b end; [exact I|].
+  eapply hb with (P := fun _ x1 => x1 = xs_tok x t1).
+  { destruct (t_token (x_tok x) =? tokenSymbolQuoted); [reflexivity|].
+    unfold of_res. pose proof (new_symbol_token_np (x_lst x) v) as Hn.
+    destruct (new_symbol_token (x_lst x) v); cbn; auto. }
+  intros k x1 ->. unfold rbind at 1, rmod.
+  apply hb_next; [intros T; cbn in T; congruence|]. intros t2 Hp2.
+  unfold rbind at 1, rget. cbn [x_tok xs_tok xs_field].
+  destruct (t_token t2 =? tokenColon) eqn:K3; cbn [negb]; [|exact I].
+  apply N.eqb_eq in K3. cbn. split; [|reflexivity].
+  repeat split; cbn; auto; try discriminate. rewrite (tokpost_unf _ _ Hp2 K3). reflexivity.
+Qed.
+
+(* ---- Next inside a container never touches the context stack ------------------------------------------------------- *)
+Definition ctxpres {A} (m : R A) : Prop := forall x, x_ctx (fst (m x)) = x_ctx x.
+Lemma ctxpres_ret {A} (a : A) : ctxpres (rret a). Proof. intro x; reflexivity. Qed.
+Lemma ctxpres_fail {A} : ctxpres (@rfail A). Proof. intro x; reflexivity. Qed.
+Lemma ctxpres_panic {A} : ctxpres (@rpanic A). Proof. intro x; reflexivity. Qed.
+Lemma ctxpres_rget : ctxpres rget. Proof. intro x; reflexivity. Qed.
+Lemma ctxpres_of_res {A} (r : res A) : ctxpres (of_res r). Proof. intro x; reflexivity. Qed.
+Lemma ctxpres_lift {A} (m : M A) : ctxpres (lift m).
+Proof. intro x; unfold lift; destruct (m (x_tok x)) as [[a t]| | |]; reflexivity. Qed.
+Lemma ctxpres_rmod (f : xstate -> xstate) : (forall x, x_ctx (f x) = x_ctx x) -> ctxpres (rmod f).
+Proof. intros H x; apply H. Qed.
+Lemma ctxpres_bind {A B} (m : R A) (f : A -> R B) :
+  ctxpres m -> (forall a, ctxpres (f a)) -> ctxpres (rbind m f).
+Proof.
+  intros Hm Hf x; unfold rbind; specialize (Hm x).
+  destruct (m x) as [x' [a| | |]]; cbn [fst] in *; try assumption.
+  rewrite Hf; assumption.
+Qed.
+Ltac cp :=
+  repeat first
+    [ assumption
+    | apply ctxpres_ret | apply ctxpres_fail | apply ctxpres_panic | apply ctxpres_rget
+    | apply ctxpres_of_res | apply ctxpres_lift
+    | apply ctxpres_rmod; intros; reflexivity
+    | apply ctxpres_bind; [ | intros ]
+    | match goal with
+      | |- ctxpres (if ?b then _ else _) => destruct b
+      | |- ctxpres (match ?v with _ => _ end) => destruct v
+      | |- ctxpres (let '(_, _) := ?p in _) => destruct p
+      end ].
+Lemma ctxpres_set_value t v : ctxpres (set_value t v). Proof. unfold set_value; cp. Qed.
+Lemma ctxpres_read_null_type : ctxpres read_null_type. Proof. unfold read_null_type; cp. Qed.
+Lemma ctxpres_on_null ws : ctxpres (on_null ws).
+Proof. pose proof ctxpres_read_null_type. unfold on_null; cp. Qed.
+Lemma ctxpres_on_symbol v ws : ctxpres (on_symbol v ws).
+Proof. pose proof ctxpres_set_value. pose proof (ctxpres_on_null ws). unfold on_symbol; cp; apply ctxpres_set_value. Qed.
+Lemma ctxpres_on_number tok : ctxpres (on_number pd tok).
+Proof. unfold on_number; cp; apply ctxpres_set_value. Qed.
+Lemma ctxpres_on_timestamp : ctxpres (on_timestamp pt).
+Proof. unfold on_timestamp; cp; apply ctxpres_set_value. Qed.
+Lemma ctxpres_on_lob : ctxpres on_lob.
+Proof. unfold on_lob; cp; apply ctxpres_set_value. Qed.
+Lemma ctxpres_next_after_value : ctxpres next_after_value.
+Proof. unfold next_after_value; cp. Qed.
+Lemma ctxpres_next_before_field_name : ctxpres next_before_field_name.
+Proof. unfold next_before_field_name; cp. Qed.
+Lemma ctxpres_finish_value : ctxpres x_finish_value.
+Proof. unfold x_finish_value; cp. Qed.
+
+Lemma nbta_ctx api fuel x : x_ctx x <> [] ->
+  x_ctx (fst (next_before_type_annotations pd pt api fuel x)) = x_ctx x.
+Proof.
+  intros Hc. unfold next_before_type_annotations. unfold rbind at 1, rget.
+  assert (Top : x_at_top x = false) by (unfold x_at_top; destruct (x_ctx x); congruence).
+  repeat match goal with
+         | |- x_ctx (fst ((if ?b then _ else _) x)) = _ => destruct b
+         | |- x_ctx (fst ((match ?v with _ => _ end) x)) = _ => destruct v eqn:?
+         end;
+    try (cbn; congruence);
+    try (match goal with |- x_ctx (fst (?m x)) = _ => assert (Hm : ctxpres m); [ | exact (Hm x) ] end;
+         cp; first [apply ctxpres_set_value | apply ctxpres_on_symbol | apply ctxpres_on_number
+                   | apply ctxpres_on_timestamp | apply ctxpres_on_lob]).
+  (* the struct case: not at top level, so no symbol table is read *)
+  unfold rbind at 1, rmod. unfold rbind at 1, rget.
+  match goal with |- context [x_at_top ?y] => change (x_at_top y) with (x_at_top x) end.
+  rewrite Top. reflexivity.
+Qed.
+
+Lemma next_loop_ctx api fuel : forall k x, x_ctx x <> [] ->
+  x_ctx (fst (x_next_loop pd pt api k fuel x)) = x_ctx x.
+Proof.
+  induction k as [|k IH]; intros x Hc; cbn [x_next_loop]; [reflexivity|].
+  pose proof (ctxpres_lift t_next x) as H1.
+  destruct (lift t_next x) as [x1 [u| | |]]; cbn [fst] in *; try assumption.
+  assert (Hc1 : x_ctx x1 <> []) by (rewrite H1; exact Hc).
+  match goal with |- context [?step x1] =>
+    match type of step with R bool => assert (G : x_ctx (fst (step x1)) = x_ctx x1) end end.
+  { destruct (x_state x1 =? trsAfterValue); [apply ctxpres_next_after_value|].
+    destruct (x_state x1 =? trsBeforeFieldName); [apply ctxpres_next_before_field_name|].
+    destruct (x_state x1 =? trsBeforeTypeAnnotations); [apply nbta_ctx; exact Hc1|reflexivity]. }
+  match goal with |- context [?step x1] =>
+    match type of step with R bool => destruct (step x1) as [x2 [[|]| | |]] end end; cbn [fst] in *; try congruence.
+  - rewrite IH; congruence.
+  - cbn. congruence.
+Qed.
+Lemma next_with_ctx api fuel x : x_ctx x <> [] ->
+  x_ctx (fst (x_next_with pd pt api fuel x)) = x_ctx x.
+Proof.
+  intros Hc. unfold x_next_with. destruct ((x_state x =? trsDone) || x_eof x); [reflexivity|].
+  pose proof (ctxpres_finish_value x) as H1.
+  destruct (x_finish_value x) as [x1 [u| | |]]; cbn [fst] in *; try assumption.
+  rewrite next_loop_ctx; cbn; congruence.
+Qed.
+
+(* ---- readLocalSymbolTable and Next ---------------------------------------------------------------------------------- *)
+Definition GoodTop (r : xstate * res bool) : Prop :=
+  match r with
+  | (x', Ok true) => wf x'
+  | (x', Ok false) => WF x'
+  | (_, Panic) => False
+  | _ => True
+  end.
+Definition GoodL {A} (x : xstate) (r : xstate * res A) : Prop :=
+  match r with
+  | (x', Ok _) => WF x' /\ x_ctx x' = x_ctx x
+  | (_, Panic) => False
+  | _ => True
+  end.
+(* Next as readLocalSymbolTable needs it: inside a container *)
+Definition NextOK (api_next : xstate -> xstate * res bool) : Prop :=
+  forall x, WF x -> x_ctx x <> [] -> GoodTop (api_next x) /\ x_ctx (fst (api_next x)) = x_ctx x.
+
+Lemma GoodL_trans {A} x x1 (r : xstate * res A) : x_ctx x1 = x_ctx x -> GoodL x1 r -> GoodL x r.
+Proof. intros C. destruct r as [x' [a| | |]]; cbn; auto. intros [H1 H2]. split; congruence. Qed.
+Lemma wf_WF x : wf x -> WF x.
+Proof. right; assumption. Qed.
+Lemma GoodL_ret {A} x (a : A) : WF x -> GoodL x (x, Ok a).
+Proof. intros H; split; auto. Qed.
+Definition harmless {A B} (fl : res A -> res B) : Prop :=
+  fl Err = Err /\ fl OutOfFuel = OutOfFuel.
+
+Section Lst.
+Variable api_next : xstate -> xstate * res bool.
+Hypothesis Hnext : NextOK api_next.
+
+Ltac nx x1 Hn Cn :=
+  match goal with
+  | Hw : WF ?x, Hc : x_ctx ?x <> [] |- context [api_next ?x] =>
+    destruct (Hnext x Hw Hc) as [Hn Cn];
+    destruct (api_next x) as [x1 [[|]| | |]]; cbn [GoodTop fst] in Hn, Cn; try contradiction;
+    cbn [keep_bad GoodL]; try exact I
+  end.
+
+(* entering a container, running a loop in it and leaving it *)
+Lemma in_container {A B} x (loop : xstate -> xstate * res A) (k : A -> xstate -> xstate * res B) (fl : res A -> res B) :
+  WF x -> harmless fl ->
+  (forall x1, WF x1 -> x_ctx x1 <> [] -> GoodL x1 (loop x1)) ->
+  (forall a x3, WF x3 -> GoodL x3 (k a x3)) ->
+  GoodL x (match x_step_in x with
+           | (x1, Ok true) =>
+             match loop x1 with
+             | (x2, Ok a) => match x_step_out x2 with
+                             | (x3, Ok true) => k a x3
+                             | (x3, r) => (x3, keep_bad r)
+                             end
+             | (x2, r) => (x2, fl r)
+             end
+           | (x1, r) => (x1, keep_bad r)
+           end).
+Proof.
+  intros Hw [F1 F2] Hloop Hk. pose proof (step_in_spec x Hw) as Hi.
+  destruct (x_step_in x) as [x1 [[|]| | |]]; cbn [keep_bad GoodL]; try exact I; try contradiction.
+  destruct Hi as [L1 [c C1]].
+  assert (N1 : x_ctx x1 <> []) by (rewrite C1; discriminate).
+  pose proof (Hloop x1 (wf_WF _ (L_wf _ L1)) N1) as H2.
+  destruct (loop x1) as [x2 [a| | |]]; rewrite ?F1, ?F2; cbn [GoodL] in *; try exact I; try contradiction.
+  destruct H2 as [W2 C2]. pose proof (step_out_spec x2 W2) as Ho.
+  destruct (x_step_out x2) as [x3 [[|]| | |]]; cbn [keep_bad GoodL]; try exact I; try contradiction.
+  destruct Ho as [L3 [ND [c' C3]]].
+  assert (C : x_ctx x3 = x_ctx x) by (rewrite C2, C1 in C3; injection C3; auto).
+  eapply GoodL_trans; [exact C|]. apply Hk. apply wf_WF, L_wf, L3.
+Qed.
+Lemma harmless_id {A} : harmless (fun r : res A => r). Proof. split; reflexivity. Qed.
+Lemma harmless_keep {A B} : harmless (@keep_bad A B). Proof. split; reflexivity. Qed.
+
+Lemma read_symbols_loop_ok fuel : forall x acc,
+  WF x -> x_ctx x <> [] -> GoodL x (read_symbols_loop api_next fuel x acc).
+Proof.
+  induction fuel as [|f IH]; intros x acc Hw Hc; cbn [read_symbols_loop]; [exact I|].
+  nx x1 Hn Cn.
+  - eapply GoodL_trans; [exact Cn|]. apply IH; [apply wf_WF, Hn|rewrite Cn; exact Hc].
+  - split; assumption.
+Qed.
+Lemma read_symbols_ok fuel x : WF x -> GoodL x (read_symbols api_next fuel x).
+Proof.
+  intros Hw. unfold read_symbols. destruct (negb (x_type x =? TList)); [apply GoodL_ret; exact Hw|].
+  apply (in_container x (fun x1 => read_symbols_loop api_next fuel x1 []) (fun a x3 => (x3, Ok a)) (fun r => r)); auto using harmless_id.
+  - intros; apply read_symbols_loop_ok; assumption.
+  - intros; apply GoodL_ret; assumption.
+Qed.
+
+Lemma read_import_loop_ok fuel : forall x d,
+  WF x -> x_ctx x <> [] -> GoodL x (read_import_loop api_next fuel x d).
+Proof.
+  induction fuel as [|f IH]; intros x d Hw Hc; cbn [read_import_loop]; [exact I|].
+  nx x1 Hn Cn.
+  - eapply GoodL_trans; [exact Cn|].
+    assert (Hrec : forall d', GoodL x1 (read_import_loop api_next f x1 d'))
+      by (intros; apply IH; [apply wf_WF, Hn|rewrite Cn; exact Hc]).
+    destruct (x_err x1); [exact I|]. destruct (field_text x1) as [fnm|]; [|exact I].
+    repeat match goal with
+           | |- GoodL _ (if ?b then _ else _) => destruct b
+           | |- GoodL _ (match ?v with _ => _ end) => destruct v
+           end; try apply Hrec; exact I.
+  - split; assumption.
+Qed.
+Lemma read_import_ok fuel x : WF x -> GoodL x (read_import api_next fuel x).
+Proof.
+  intros Hw. unfold read_import. destruct (negb (x_type x =? TStruct) || x_is_null x); [apply GoodL_ret; exact Hw|].
+  match goal with |- context [read_import_loop api_next fuel _ ?d0] =>
+    apply (in_container x (fun x1 => read_import_loop api_next fuel x1 d0)
+             (fun d x3 => if list_eqb (id_name d) [] || list_eqb (id_name d) (s "$ion") then (x3, Ok None)
+                          else if (id_maxid d <? 0)%Z then (x3, Err)
+                          else (x3, Ok (Some {| im_syms := []; im_maxid := Z.to_N (id_maxid d) |})))
+             (@keep_bad _ _)) end; auto using harmless_keep.
+  - intros; apply read_import_loop_ok; assumption.
+  - intros d x3 W3. repeat match goal with |- GoodL _ (if ?b then _ else _) => destruct b end;
+      try exact I; apply GoodL_ret; assumption.
+Qed.
+Lemma read_imports_loop_ok fuel : forall x acc,
+  WF x -> x_ctx x <> [] -> GoodL x (read_imports_loop api_next fuel x acc).
+Proof.
+  induction fuel as [|f IH]; intros x acc Hw Hc; cbn [read_imports_loop]; [exact I|].
+  nx x1 Hn Cn.
+  - eapply GoodL_trans; [exact Cn|].
+    pose proof (read_import_ok (S f) x1 (wf_WF _ Hn)) as H2.
+    destruct (read_import api_next (S f) x1) as [x2 [[i|]| | |]]; cbn [keep_bad GoodL] in *; try exact I; try contradiction;
+      destruct H2 as [W2 C2]; (eapply GoodL_trans; [exact C2|]); apply IH; try exact W2; rewrite C2, Cn; exact Hc.
+  - split; assumption.
+Qed.
+Lemma read_imports_ok fuel x : WF x -> GoodL x (read_imports api_next fuel x).
+Proof.
+  intros Hw. unfold read_imports.
+  match goal with |- GoodL x (match ?c with _ => _ end) => assert (Hc : forall r, c = Some r -> GoodL x r) end.
+  { intros r. destruct (x_type x =? TSymbol); [|discriminate].
+    destruct (x_err x); [intros E; injection E as <-; exact I|].
+    destruct (x_value x) as [| | | | | | |tk| | |]; try discriminate.
+    destruct (tk_sid tk =? 3)%Z; [|discriminate].
+    destruct (x_lst x); intros E; injection E as <-; apply GoodL_ret; exact Hw. }
+  match goal with |- GoodL x (match ?c with _ => _ end) => destruct c as [r|] end; [apply Hc; reflexivity|].
+  destruct (negb (x_type x =? TList) || x_is_null x); [apply GoodL_ret; exact Hw|].
+  apply (in_container x (fun x1 => read_imports_loop api_next fuel x1 []) (fun a x3 => (x3, Ok a)) (fun r => r)); auto using harmless_id.
+  - intros; apply read_imports_loop_ok; assumption.
+  - intros; apply GoodL_ret; assumption.
+Qed.
+Lemma read_lst_loop_ok fuel : forall x imps syms fi fs,
+  WF x -> x_ctx x <> [] -> GoodL x (read_lst_loop api_next fuel x imps syms fi fs).
+Proof.
+  induction fuel as [|f IH]; intros x imps syms fi fs Hw Hc; cbn [read_lst_loop]; [exact I|].
+  nx x1 Hn Cn.
+  - eapply GoodL_trans; [exact Cn|].
+    assert (Hc1 : x_ctx x1 <> []) by (rewrite Cn; exact Hc).
+    destruct (x_err x1); [exact I|]. destruct (field_text x1) as [fnm|]; [|exact I].
+    destruct (list_eqb fnm (s "symbols")).
+    + destruct fs; [exact I|].
+      pose proof (read_symbols_ok (S f) x1 (wf_WF _ Hn)) as H2.
+      destruct (read_symbols api_next (S f) x1) as [x2 [sy| | |]]; cbn [keep_bad GoodL] in *; try exact I; try contradiction.
+      destruct H2 as [W2 C2]. eapply GoodL_trans; [exact C2|]. apply IH; [exact W2|rewrite C2; exact Hc1].
+    + destruct (list_eqb fnm (s "imports")); [|apply IH; [apply wf_WF, Hn|exact Hc1]].
+      destruct fi; [exact I|].
+      pose proof (read_imports_ok (S f) x1 (wf_WF _ Hn)) as H2.
+      destruct (read_imports api_next (S f) x1) as [x2 [im| | |]]; cbn [keep_bad GoodL] in *; try exact I; try contradiction.
+      destruct H2 as [W2 C2]. eapply GoodL_trans; [exact C2|]. apply IH; [exact W2|rewrite C2; exact Hc1].
+  - split; assumption.
+Qed.
+(* a successful readLocalSymbolTable leaves the reader after the struct, inside Next *)
+Lemma read_lst_ok fuel x : WF x ->
+  match read_local_symbol_table api_next fuel x with
+  | (x', Ok _) => L x' /\ x_ctx x' = x_ctx x
+  | (_, Panic) => False
+  | _ => True
+  end.
+Proof.
+  intros Hw. unfold read_local_symbol_table. pose proof (step_in_spec x Hw) as Hi.
+  destruct (x_step_in x) as [x1 [[|]| | |]]; cbn [keep_bad]; try exact I; try contradiction.
+  destruct Hi as [L1 [c C1]].
+  assert (N1 : x_ctx x1 <> []) by (rewrite C1; discriminate).
+  pose proof (read_lst_loop_ok fuel x1 [] [] false false (wf_WF _ (L_wf _ L1)) N1) as H2.
+  destruct (read_lst_loop api_next fuel x1 [] [] false false) as [x2 [[im sy]| | |]]; cbn [keep_bad GoodL] in *; try exact I; try contradiction.
+  destruct H2 as [W2 C2]. pose proof (step_out_spec x2 W2) as Ho.
+  destruct (x_step_out x2) as [x3 [[|]| | |]]; cbn [keep_bad]; try exact I; try contradiction.
+  destruct Ho as [L3 [ND [c' C3]]]. split; [exact L3|].
+  rewrite C2, C1 in C3; injection C3; auto.
+Qed.
+End Lst.
+
+Lemma value_then_true (m : R unit) y x :
+  hoare (m y) (fun _ x' => wf x' /\ x_ctx x' = x_ctx y) -> x_ctx y = x_ctx x ->
+  hoare ((rdo _ <- m; rret true) y) (hpost x).
+Proof.
+  intros H C. eapply hb; [exact H|]. intros _ x1 [W C1]. cbn. split; [exact W|congruence].
+Qed.
+Lemma L_xs_lst x l : L x -> L (xs_lst x l).
+Proof. intros H; exact H. Qed.
+Lemma rvb_symlike k :
+  (k =? tokenSymbolOperator) || (k =? tokenDot) || (k =? tokenSymbolQuoted) || (k =? tokenSymbol) = true -> rvb k = true.
+Proof.
+  intros H. repeat (apply orb_true_iff in H; destruct H as [H|H]); apply N.eqb_eq in H; subst; reflexivity.
+Qed.
+Lemma rvb_strlike k : (k =? tokenString) || (k =? tokenLongString) = true -> rvb k = true.
+Proof.
+  intros H. repeat (apply orb_true_iff in H; destruct H as [H|H]); apply N.eqb_eq in H; subst; reflexivity.
+Qed.
+Lemma container_wf x ty k :
+  x_err x = false -> tokpost (x_tok x) -> t_token (x_tok x) = k -> unf_of k = true -> skb k = true ->
+  is_container ty = true ->
+  wf (xs_val (xs_state x trsBeforeContainer) ty XContainer).
+Proof.
+  intros E Hp K Uf Sk C. pose proof (tokpost_unf _ _ Hp K) as F. rewrite Uf in F.
+  constructor; cbn; auto; try discriminate. intros _. left. rewrite K. exact Sk.
+Qed.
+
+Lemma nbta_spec api fuel x :
+  x_err x = false -> x_state x = trsBeforeTypeAnnotations -> tokpost (x_tok x) ->
+  (x_ctx x <> [] \/ NextOK api) ->
+  hoare (next_before_type_annotations pd pt api fuel x) (hpost x).
+Proof.
+  intros E S Hp Hctx. unfold next_before_type_annotations. unfold rbind at 1, rget.
+  assert (Hst : x_state x = trsBeforeFieldName \/ x_state x = trsBeforeTypeAnnotations \/ x_state x = trsAfterValue) by auto.
+  assert (Hav : x_state x = trsAfterValue -> state_after_value x = trsAfterValue) by (rewrite S; discriminate).
+  assert (Heof : forall k, t_token (x_tok x) = k -> unf_of k = false -> wf (xs_eof x true)).
+  { intros k K F. apply eof_wf; auto. intros T. rewrite (tokpost_unf _ _ Hp K), F in T. discriminate. }
+  destruct (t_token (x_tok x) =? tokenEOF) eqn:K0.
+  { apply N.eqb_eq in K0. unfold x_at_top. destruct (x_ctx x) eqn:C; [|exact I].
+    cbn. split; [|reflexivity]. apply eof_wf; auto. }
+  assert (Hu : U (x_tok x)) by (apply tokpost_U; assumption).
+  match goal with |- hoare ((if ?b then _ else _) x) _ => destruct b end; [exact I|].
+  match goal with |- hoare ((if ?b then _ else _) x) _ => destruct b eqn:K1 end.
+  { (* a symbol: annotation or value *)
+    apply hb_fin; [apply read_value_fin, rvb_symlike, K1|]. intros v t1 _ F1.
+    apply hb_frame; [apply tframe_skip_double_colon|]. intros [ok ws] t2 S2.
+    assert (F2 : t_unfinished t2 = false) by (destruct S2 as [_ [S2 _]]; cbn in S2; congruence).
+    cbn beta iota.
+    destruct ok.
+    - match goal with |- hoare ((if ?b then _ else _) _) _ => destruct b end; [exact I|].
+      match goal with |- hoare ((if ?b then _ else _) _) _ => destruct b end; [exact I|].
+      unfold rbind at 1, rget.
+      eapply hb with (P := fun _ x1 => x1 = xs_tok (xs_tok x t1) t2).
+      { destruct (t_token (x_tok x) =? tokenSymbolQuoted); [reflexivity|].
+        unfold of_res. match goal with |- hoare (_, ?r) _ => pose proof (new_symbol_token_np (x_lst (xs_tok (xs_tok x t1) t2)) v) as Hn;
+          destruct r; cbn; auto end. }
+      intros k x1 ->. cbn. split; [|reflexivity]. repeat split; cbn; auto.
+    - destruct (t_token (x_tok x) =? tokenSymbolQuoted).
+      + apply value_then_true; [|reflexivity]. apply set_value_spec; [exact E|intros T; cbn in T; congruence].
+      + apply value_then_true; [|reflexivity]. apply on_symbol_spec; [exact E|intros T; cbn in T; congruence]. }
+  match goal with |- hoare ((if ?b then _ else _) x) _ => destruct b eqn:K2 end.
+  { apply hb_fin; [apply read_value_fin, rvb_strlike, K2|]. intros v t1 _ F1.
+    apply value_then_true; [|reflexivity]. apply set_value_spec; [exact E|intros T; cbn in T; congruence]. }
+  match goal with |- hoare ((if ?b then _ else _) x) _ => destruct b eqn:K3 end.
+  { apply value_then_true; [|reflexivity]. apply on_number_spec; auto. rewrite K3; discriminate. }
+  destruct (t_token (x_tok x) =? tokenTimestamp).
+  { apply value_then_true; [|reflexivity]. apply on_timestamp_spec; exact E. }
+  destruct (t_token (x_tok x) =? tokenOpenDoubleBrace).
+  { apply value_then_true; [|reflexivity]. apply on_lob_spec; assumption. }
+  destruct (t_token (x_tok x) =? tokenOpenBrace) eqn:K4.
+  { apply N.eqb_eq in K4. unfold rbind at 1, rmod. unfold rbind at 1, rget.
+    set (x1 := xs_val (xs_state x trsBeforeContainer) TStruct XContainer).
+    assert (W1 : wf x1) by (apply (container_wf x TStruct tokenOpenBrace); auto).
+    destruct (x_at_top x1 && is_ion_symbol_table (x_annots x1)) eqn:T.
+    - apply andb_prop in T. destruct T as [T _].
+      assert (Hn : NextOK api).
+      { destruct Hctx as [Hc|Hn]; [|exact Hn]. exfalso. unfold x_at_top in T. subst x1. cbn in T.
+        destruct (x_ctx x); [apply Hc; reflexivity|discriminate]. }
+      change (x_is_null x1) with false. cbv iota.
+      eapply hb; [apply (read_lst_ok api Hn fuel x1 (wf_WF _ W1))|].
+      intros st x2 [L2 C2]. cbn. split; [exact L2|exact C2].
+    - cbn. split; [exact W1|reflexivity]. }
+  destruct (t_token (x_tok x) =? tokenOpenBracket) eqn:K5.
+  { apply N.eqb_eq in K5. cbn. split; [|reflexivity]. apply (container_wf x TList tokenOpenBracket); auto. }
+  destruct (t_token (x_tok x) =? tokenOpenParen) eqn:K6.
+  { apply N.eqb_eq in K6. cbn. split; [|reflexivity]. apply (container_wf x TSexp tokenOpenParen); auto. }
+  destruct (t_token (x_tok x) =? tokenCloseBracket) eqn:K7.
+  { apply N.eqb_eq in K7. destruct (x_ctx x) as [|[| |] r]; try exact I.
+    cbn. split; [apply (Heof _ K7); reflexivity|reflexivity]. }
+  destruct (t_token (x_tok x) =? tokenCloseParen) eqn:K8; [|exact I].
+  apply N.eqb_eq in K8.
+  match goal with |- hoare ((if ?b then _ else _) x) _ => destruct b end; [|exact I].
+  cbn. split; [apply (Heof _ K8); reflexivity|reflexivity].
+Qed.
+
+Lemma finish_value_val t b t' : t_finish_value t = Ok (b, t') -> b = t_unfinished t.
+Proof.
+  unfold t_finish_value, t_finish_value_with, mbind, get.
+  destruct (t_unfinished t); cbn [negb].
+  - destruct (t_skip_value t) as [[c t1]| | |]; try discriminate. cbn. intros H; injection H as <- _. reflexivity.
+  - unfold ret. intros H; injection H as <- _. reflexivity.
+Qed.
+
+Lemma next_loop_spec api fuel : forall k x,
+  L x -> (x_ctx x <> [] \/ NextOK api) -> GoodTop (x_next_loop pd pt api k fuel x).
+Proof.
+  induction k as [|k IH]; intros x HL Hctx; cbn [x_next_loop]; [exact I|].
+  destruct HL as [E [S [A F]]].
+  pose proof (next_spec (x_tok x)) as Hn. unfold lift at 1.
+  destruct (t_next (x_tok x)) as [[u t1]| | |]; cbn [GoodTop]; try exact I.
+  2: { apply explode_WF. }
+  2: { apply Hn. intros T. congruence. }
+  assert (Hp : tokpost t1) by (apply Hn; intros T; congruence). clear Hn.
+  set (x1 := xs_tok x t1).
+  assert (Hh : exists step : R bool,
+            (if x_state x1 =? trsAfterValue then next_after_value
+             else if x_state x1 =? trsBeforeFieldName then next_before_field_name
+             else if x_state x1 =? trsBeforeTypeAnnotations then next_before_type_annotations pd pt api fuel
+             else rpanic) = step /\ hoare (step x1) (hpost x1)).
+  { eexists; split; [reflexivity|].
+    change (x_state x1) with (x_state x).
+    destruct S as [S|[S|S]]; rewrite S; cbn [N.eqb trsAfterValue trsBeforeFieldName trsBeforeTypeAnnotations Pos.eqb].
+    - apply next_before_field_name_spec; auto.
+    - apply nbta_spec; auto.
+    - apply next_after_value_spec; auto. }
+  destruct Hh as [step [-> Hh]].
+  destruct (step x1) as [x2 [[|]| | |]]; cbn [hoare hpost GoodTop] in *; try exact I; try contradiction.
+  - destruct Hh as [W2 _]. destruct (negb (x_eof x2)); cbn; [exact W2|right; exact W2].
+  - destruct Hh as [L2 C2]. apply IH; [exact L2|]. destruct Hctx as [Hc|Hn]; [left; rewrite C2; exact Hc|right; exact Hn].
+  - apply explode_WF.
+Qed.
+
+Lemma next_with_spec api fuel x :
+  WF x -> (x_ctx x <> [] \/ NextOK api) -> GoodTop (x_next_with pd pt api fuel x).
+Proof.
+  intros Hw Hctx. unfold x_next_with.
+  destruct ((x_state x =? trsDone) || x_eof x) eqn:B; [exact Hw|].
+  apply orb_false_elim in B. destruct B as [B Eo]. apply N.eqb_neq in B.
+  destruct Hw as [[D _]|W]; [contradiction|].
+  assert (Hu : U (x_tok x)).
+  { intros T. destruct (wf_unf x W T) as [Sk|[_ [K _]]]; [exact Sk|congruence]. }
+  unfold x_finish_value, rbind at 1, lift at 1.
+  pose proof (finish_value_fin (x_tok x) Hu) as Hf. unfold tfin in Hf.
+  pose proof (finish_value_val (x_tok x)) as Hv.
+  destruct (t_finish_value (x_tok x)) as [[b t1]| | |]; cbn [GoodTop]; try exact I; try contradiction.
+  2: { apply explode_WF. }
+  destruct Hf as [F1 [F2 _]]. specialize (Hv b t1 eq_refl).
+  assert (HL : L (x_clear (fst ((if b then rmod (fun x0 => xs_state x0 (state_after_value x0)) else rret tt) (xs_tok x t1))))).
+  { destruct b; cbn.
+    - repeat split; cbn; auto using wf_err.
+      + change (state_after_value (xs_tok x t1)) with (state_after_value x). destruct (sav_cases x) as [K|K]; rewrite K; auto.
+    - repeat split; cbn; auto using wf_err.
+      + destruct (wf_state x W) as [K|[K|[K|K]]]; auto. destruct (wf_bc x W K) as [T _]. congruence.
+      + apply (wf_av x W). }
+  destruct b; cbn in *; (apply next_loop_spec; [exact HL|exact Hctx]).
+Qed.
+End Handlers.
+
+(* ---- the two levels of Next, the API, navigation programs ------------------------------------------------------------ *)
+Section Api.
+Variable pd : list N -> res dec.
+Variable pt : list N -> res (list N).
+Hypothesis pd_np : forall l, pd l <> Panic.
+Hypothesis pt_np : forall l, pt l <> Panic.
+
+Lemma next_inner_ok : NextOK (x_next_inner pd pt).
+Proof.
+  intros x Hw Hc. split.
+  - apply next_with_spec; auto.
+  - apply next_with_ctx; exact Hc.
+Qed.
+Lemma next_ok x : WF x -> GoodTop (x_next pd pt x).
+Proof. intros Hw. apply next_with_spec; auto. right. exact next_inner_ok. Qed.
+
+Lemma init_WF inp ioerr : WF (x_init inp ioerr).
+Proof. right. constructor; cbn; auto; discriminate. Qed.
+
+(* one API call on a well-formed reader: no panic, and the reader stays well-formed *)
+Lemma op_ok x o : WF x ->
+  match x_op_res pd pt x o with
+  | (x', Ok _) => WF x'
+  | (_, Panic) => False
+  | _ => True
+  end.
+Proof.
+  intros Hw. destruct o; cbn [x_op_res];
+    repeat match goal with
+           | |- match (if ?b then _ else _) with _ => _ end => destruct b
+           end; try exact Hw.
+  - pose proof (next_ok x Hw) as H. destruct (x_next pd pt x) as [x1 [[|]| | |]]; cbn in *; auto. right; exact H.
+  - pose proof (step_in_spec x Hw) as H. destruct (x_step_in x) as [x1 [[|]| | |]]; cbn in *; auto.
+    + destruct H as [H _]. right. apply L_wf, H.
+    + subst; exact Hw.
+  - pose proof (step_out_spec x Hw) as H. destruct (x_step_out x) as [x1 [[|]| | |]]; cbn in *; auto.
+    + destruct H as [H _]. right. apply L_wf, H.
+    + apply H.
+  - repeat match goal with
+           | |- match (if ?b then _ else _) with _ => _ end => destruct b
+           | |- match (match ?v with _ => _ end) with _ => _ end => destruct v
+           end; exact Hw.
+  - repeat match goal with
+           | |- match (if ?b then _ else _) with _ => _ end => destruct b
+           | |- match (match ?v with _ => _ end) with _ => _ end => destruct v
+           end; exact Hw.
+Qed.
+
+Definition PANIC : list N := [112; 97; 110; 105; 99].
+(* no answer token of a call is the word "panic" *)
+Lemma op_token x o x' t : x_op_res pd pt x o = (x', Ok t) -> t <> PANIC.
+Proof.
+  unfold PANIC. destruct o; cbn [x_op_res];
+    repeat match goal with
+           | |- (if ?b then _ else _) = _ -> _ => destruct b
+           | |- (match ?v with _ => _ end) = _ -> _ => destruct v
+           | |- (let (_, _) := ?v in _) = _ -> _ => destruct v
+           end; try discriminate;
+    intros H; injection H as _ <-; try discriminate;
+    repeat match goal with
+           | |- (if ?b then _ else _) <> _ => destruct b
+           | |- (match ?v with _ => _ end) <> _ => destruct v
+           end; try discriminate.
+  all: unfold show_tok; repeat match goal with |- (match ?v with _ => _ end) <> _ => destruct v end; discriminate.
+Qed.
+
+Lemma run_ok : forall p x acc,
+  WF x -> ~ In PANIC acc -> ~ In PANIC (snd (x_run pd pt x p acc)).
+Proof.
+  induction p as [|o p IH]; intros x acc Hw Ha; cbn [x_run].
+  - cbn [snd]. rewrite <- in_rev. exact Ha.
+  - pose proof (op_ok x o Hw) as H. pose proof (op_token x o) as Ht.
+    destruct (x_op_res pd pt x o) as [x1 [t| | |]]; try contradiction.
+    + apply IH; [exact H|]. intros [K|K]; [exact (Ht x1 t eq_refl K)|exact (Ha K)].
+    + cbn [snd]. rewrite <- in_rev. intros [K|K]; [vm_compute in K; discriminate K|exact (Ha K)].
+    + cbn [snd]. rewrite <- in_rev. intros [K|K]; [vm_compute in K; discriminate K|exact (Ha K)].
+Qed.
+Lemma run_WF : forall p x acc, WF x ->
+  WF (fst (x_run pd pt x p acc)) \/ In (s "outoffuel") (snd (x_run pd pt x p acc)).
+Proof.
+  induction p as [|o p IH]; intros x acc Hw; cbn [x_run]; [left; exact Hw|].
+  pose proof (op_ok x o Hw) as H.
+  destruct (x_op_res pd pt x o) as [x1 [t| | |]]; try contradiction.
+  - apply IH; exact H.
+  - right. cbn [snd]. rewrite <- in_rev. left; reflexivity.
+  - right. cbn [snd]. rewrite <- in_rev. left; reflexivity.
+Qed.
+End Api.
+
+(* ---- the driver's decimal / timestamp parsers never panic -------------------------------------------------------------- *)
+Lemma parse_decimal_text_np l : parse_decimal_text l <> Panic.
+Proof.
+  unfold parse_decimal_text. destruct l as [|c l]; [discriminate|].
+  match goal with |- bind ?m _ <> _ => assert (Hm : m <> Panic); [ | destruct m as [[e0 inp]| | |]; try discriminate; try congruence ] end.
+  { destruct (split_at_first _ (c :: l) []) as [[m ex]|]; [|discriminate].
+    destruct ex; [discriminate|]. destruct (go_signed_val 10 (n :: ex)); [|discriminate].
+    destruct (in_int32 z); discriminate. }
+  cbn [bind]. destruct (split_at_first _ inp []) as [[ip fp]|];
+    match goal with |- context [go_signed_val 10 ?v] => destruct (go_signed_val 10 v) end; discriminate.
+Qed.
+Lemma parse_ts_text_np l : parse_ts_text l <> Panic.
+Proof.
+  unfold parse_ts_text.
+  repeat match goal with
+         | |- (if ?b then _ else _) <> _ => destruct b
+         | |- (match ?v with _ => _ end) <> _ => destruct v
+         | |- (let '(_, _) := ?v in _) <> _ => destruct v
+         end; discriminate.
+Qed.
+
+(* for every input and every navigation program no call panics *)
+Theorem no_panic_run inp ioerr p :
+  ~ In PANIC (snd (x_run parse_decimal_text parse_ts_text (x_init inp ioerr) p [])).
+Proof.
+  apply run_ok; [exact parse_decimal_text_np|exact parse_ts_text_np|apply init_WF|intros []].
+Qed.
